@@ -301,10 +301,20 @@ func c12Check(c *core.Ctx) {
 	if tzName == "" {
 		tzName = "UTC"
 	}
+	if strings.HasPrefix(c.Pass, "setlocal-") {
+		// the process starts in UTC and the program sets time.Local itself, after
+		// every package was initialised (the usual `time.Local = ...` in main):
+		// "the process's local time zone" is what time.Local is when a value is decoded
+		tzName = map[string]string{"setlocal-berlin": "Europe/Berlin"}[c.Pass]
+	}
 	loc, err := time.LoadLocation(tzName)
 	if err != nil {
 		c.Inconclusive("cannot load the zone named by TZ=" + tzName + ": " + err.Error())
 		return
+	}
+	if strings.HasPrefix(c.Pass, "setlocal-") {
+		time.Local = loc
+		c.Cell("time.Local-set-by-the-program-after-start")
 	}
 	// the process-local zone the library will use must be that zone
 	for _, s := range []int64{0, 504921600, 1e9, 1625097600, 1640995200, 4e9} {
